@@ -13,7 +13,7 @@ import programs
 
 def run_family(pid, tier, family, invariants, props, cats, bounds, sample_n, j=1,
                required_actions=(), verdict=None, note='', pads=(0,), watch=False,
-               jitter=False, repeat=1, sched_independent=False):
+               jitter=False, repeat=1, sched_independent=False, cmd_timeout=60, confirm_spec=None, min_cmds=2):
     """family: list of program dicts.  bounds: (max_hist, max_cmds).  Returns (verdict, coverage)."""
     t0 = time.time()
     verdict = verdict or common.Verdict(pid)
@@ -32,15 +32,39 @@ def run_family(pid, tier, family, invariants, props, cats, bounds, sample_n, j=1
         mh, mcm = prog.get('bounds', (max_hist, max_cmds))
         if tier == 'thorough' and 'bounds' in prog:
             mh, mcm = mh + 1, mcm + 1
-        res, hs = histories.gen_histories(prog, d, j=j, max_hist=mh, max_cmds=mcm,
-                                          invariants=invariants, properties=props, workers=4,
-                                          timeout=3000 if tier == 'thorough' else 900)
-        return prog, d, res, hs
+        invs = list(invariants)
+        prs = list(props)
+        pre = []          # specification-level violations that are listed known findings
+        while True:
+            res, hs = histories.gen_histories(prog, d, j=j, max_hist=mh, max_cmds=mcm,
+                                              invariants=invs, properties=prs, workers=4,
+                                              timeout=3000 if tier == 'thorough' else 900,
+                                              dump_trace=os.path.join(d, 'trace_%d.json' % len(pre)))
+            key = 'spec:%s:%s' % (prog['name'], res.violated)
+            if res.violated and common.known_finding(pid, key) and (res.violated in invs or res.violated in prs):
+                # keep checking everything else on this program
+                pre.append((res.violated, res, os.path.join(d, 'trace_%d.json' % len(pre))))
+                invs = [x for x in invs if x != res.violated]
+                prs = [x for x in prs if x != res.violated]
+                continue
+            break
+        return prog, d, res, hs, pre
 
     with ThreadPoolExecutor(max_workers=3) as ex:
         results = list(ex.map(mc, family))
 
-    for prog, d, res, hs in results:
+    for prog, d, res, hs, pre in results:
+        for (inv, r0, tracefile) in pre:
+            rp = os.path.join(d, 'counterexample_%s.txt' % inv)
+            with open(rp, 'w') as f:
+                f.write('program: %s\nproperty: %s violated in the specification\n\n%s' % (prog['name'], inv, r0.trace))
+            confirmed = confirm_spec(prog, inv, tracefile, bindir, d) if confirm_spec else None
+            if confirmed is False:
+                tool_errors.append('%s: specification violates %s (listed known finding) but the real code does not '
+                                   'show it any more: update known-findings.txt / the specification' % (prog['name'], inv))
+            else:
+                verdict.violation('spec:%s:%s' % (prog['name'], inv), rp,
+                                  'specification violates %s on program %s' % (inv, prog['name']))
         tot_states += res.distinct
         tot_trans += res.generated
         for a, (dist, tot) in res.coverage.items():
@@ -57,8 +81,13 @@ def run_family(pid, tier, family, invariants, props, cats, bounds, sample_n, j=1
                 f.write(res.trace)
             with open(os.path.join(d, 'program.json'), 'w') as f:
                 json.dump(prog, f, indent=1)
+            confirmed = confirm_spec(prog, res.violated, os.path.join(d, 'trace_%d.json' % len(pre)), bindir, d) \
+                if confirm_spec else None
             verdict.violation('spec:%s:%s' % (prog['name'], res.violated), rp,
-                              'specification violates %s on program %s (TLC counterexample)' % (res.violated, prog['name']))
+                              'specification violates %s on program %s (TLC counterexample%s)'
+                              % (res.violated, prog['name'],
+                                 '; reproduced on the real code' if confirmed else
+                                 ('; NOT reproduced on the real code' if confirmed is False else '')))
             continue
         groups = histories.group_histories(hs)
         if sched_independent:
@@ -69,12 +98,12 @@ def run_family(pid, tier, family, invariants, props, cats, bounds, sample_n, j=1
                 verdict.violation('sched:%s:%s' % (prog['name'], json.dumps(inp)), rp,
                                   'specification: outcome of %s depends on the schedule (program %s)' % (list(inp), prog['name']))
                 break
-        groups = {k: v for k, v in groups.items() if histories.interesting(k) or sched_independent}
+        groups = {k: v for k, v in groups.items() if histories.interesting(k, min_cmds) or sched_independent}
         tot_groups += len(groups)
         chosen = histories.sample(groups, sample_n if sample_n else len(groups), common.seed())
         pad = pads[(common.seed() + len(prog['name'])) % len(pads)]
         n_ok, fails = histories.replay_all(prog, chosen, bindir, os.path.join(d, 'replay'), nworkers=10, cats=cats,
-                                           pad=pad, watch=watch, jitter=jitter, repeat=repeat)
+                                           pad=pad, watch=watch, jitter=jitter, repeat=repeat, cmd_timeout=cmd_timeout)
         tot_replayed += n_ok + len(fails)
         tot_alts += sum(len(g) for g in chosen)
         if chosen and len(samples) < 4:
@@ -86,7 +115,8 @@ def run_family(pid, tier, family, invariants, props, cats, bounds, sample_n, j=1
             last = rep[-1] if rep else {}
             text = 'program %s, history %s:\n' % (prog['name'], [e.get('input') for e in rep]) + \
                    '\n'.join('  ' + x for x in (last.get('diffs') or []))
-            key = 'replay:%s:%s' % (prog['name'], json.dumps([e.get('input') for e in rep]))
+            hung = any('did not terminate' in x for x in (last.get('diffs') or []))
+            key = '%s:%s:%s' % ('hang' if hung else 'replay', prog['name'], json.dumps([e.get('input') for e in rep]))
             verdict.violation(key, dd, text)
 
     for a in required_actions:
